@@ -22,12 +22,18 @@ RULE = (
 P_CONST_FALSE = ("gt", ("lit", 5), ("lit", 7))
 P_CONST_TRUE = ("lt", ("lit", 5), ("lit", 7))
 IT_EXTRA = (
+    # a leaf that compares equal to the (dynamically empty) root Eloose but has rows: an executor answer
+    # remembered per relation VALUE would doom the union
+    ("chain", ("ELtwin",)),
+    ("chain", ("ELtwin",), True),
     ("sel", P_CONST_FALSE),
     ("sel", P_CONST_TRUE),
     ("chain", ("self", ("slice", 0, 0))),
     ("chain", ("self", ("sel", ("gt", ("ref", "a"), ("lit", 99)))), True),
     ("sel", ("in_range", ("ref", "a"), (3, 0, -1))),("chain", ("D0",)), ("chain", ("Eloose",)), ("chain", ("L",)), ("chain", ("L",), True))
 SQL_EXTRA = (
+    ("chain", ("ELtwin",)),
+    ("chain", ("ELtwin",), True),
     ("sel", P_CONST_FALSE),
     ("sel", P_CONST_TRUE),
     ("join", ("K",), P_CONST_FALSE, False),
